@@ -222,7 +222,9 @@ func c03Suite[T comparable](c *core.Ctx, hw *core.HangWatch, tname string, alpha
 		n := len(L)
 		in := []*guarded[T]{g}
 		desc := func(extra string) func() string {
-			return func() string { return fmt.Sprintf("list=%v (nil=%v, spare capacity %d filled with %v) %s", vals, isNil, spare, sent, extra) }
+			return func() string {
+				return fmt.Sprintf("list=%v (nil=%v, spare capacity %d filled with %v) %s", vals, isNil, spare, sent, extra)
+			}
 		}
 		if c.WantSample() && n == 3 {
 			c.Sample(map[string]any{"type": tname, "list": fmt.Sprint(vals), "helpers": "all, counts -3..len+3"})
